@@ -651,8 +651,7 @@ def shrink(case):
         calls, ticks = case["calls"], case["ticks"]
         for i in range(len(calls)):
             if len(calls) > 1:
-                rc = case.get("reconnect")
-                if rc and not (rc["after"] > i + 1 or (rc["after"] <= i and False)):
+                if case.get("reconnect"):
                     continue        # keep the call structure around a reconnect
                 yield dict(case, calls=calls[:i] + calls[i + 1:], ticks=ticks[:i] + ticks[i + 1:])
         for i, call in enumerate(calls):
